@@ -5,7 +5,7 @@ EXTENDS C01_Handshake, Json
 \* the projection below identifies the state; the terms themselves are not printed.
 St == CASE st.part = "N" -> [cfg |-> st.cfg, tr |-> st.tr, k |-> st.k, air |-> Len(st.air),
                              iS |-> st.iS, rS |-> st.rS, iRem |-> st.iRem, rRem |-> st.rRem]
-       [] st.part = "T" -> [mal |-> st.mal, exp |-> st.exp, tr |-> st.tr, done |-> st.done, ok |-> st.ok,
+       [] st.part = "T" -> [mal |-> st.mal, exp |-> st.exp, ec |-> st.ec, es |-> st.es, tr |-> st.tr, done |-> st.done, ok |-> st.ok,
                             rem |-> st.rem, cert |-> [key |-> st.cert.key, chain |-> st.cert.chain,
                                                       exts |-> [i \in 1..Len(st.cert.exts) |->
                                                                  [pub |-> st.cert.exts[i].pub, sby |-> st.cert.exts[i].sig.by,
